@@ -108,3 +108,21 @@ def register(reg):
         "the call log (vector recorded, true cost stored, signed cost handed back).",
         "Which points SciPy/NLopt query is theirs to choose; the oracle is per call.",
         "DESIGN.md section 5 C05")
+
+    reg("C07", "SCHED", "model_checking",
+        "pre-emption-bounded enumeration of worker-thread interleavings of the real code under a controlled scheduler",
+        "Algorithm.evaluate with two workers runs on real threads under a cooperative scheduler that owns every scheduling point "
+        "(task start/end, objective entry/exit, every SQLite connect/execute/commit/close; thorough: every source line of job.py and "
+        "datastore.py) and the SQLite busy-timeout outcome; all schedules within the deviation bound are executed and each is compared "
+        "with serial evaluation, one objective call per design and one row per design equal to its final data. Two tasks without "
+        "store are explored without bound; others to the bound stated in the evidence.",
+        "joblib is modelled by an executor with its contract (cross-checked by a free-running pass through real joblib); races inside "
+        "one source line are out of reach.",
+        "DESIGN.md section 5 C07, section 3.4")
+    reg("C14", "ENUM", "exploration",
+        "bounded exhaustive enumeration of batch sequences + decision-flipping exploration of real runs",
+        "Every sequence of <=3 batches of <=2 fresh designs for n<=3, m<=2, all tolerance assignments, four objective shapes and "
+        "min/max is pushed through one real evaluator instance and checked after every batch for every design so far; the gradient "
+        "evaluator likewise; EpsMOEA and NSGA-II runs with the worst-case evaluator are explored with every random decision flipped.",
+        "One evaluator instance per algorithm; sensitivity to 1e-12 relative, gradient exact.",
+        "DESIGN.md section 5 C14")
